@@ -1,4 +1,5 @@
 import Pyvsc.Model.Bounds
+import Pyvsc.Proofs.BoundsIn
 import Pyvsc.Props.C01
 /-!
 # C14 — no legal value is starved: inferred ranges over-approximate the solutions
@@ -199,5 +200,19 @@ theorem minProp_keeps (l : RL) (mn v : Int) (hasc : Asc l) (hwf : ∀ r ∈ l, r
           cases l with
           | nil => simp at hr
           | cons r0 rs => exact den_setLo_zero r0 rs mn v ⟨r, hr, h1, h2⟩ hv
+
+/-! ### `in` -/
+
+/-- **The `in` propagator is sound.**  `VariableBoundInPropagator` (created for `f in [items]`) keeps
+    every value of an ascending domain that lies in one of the listed ranges, whatever the order
+    and overlap of the items (they are sorted by lower bound, merged where they overlap or touch,
+    and intersected with the domain by a two-pointer walk) -/
+theorem inProp_keeps (l items : RL) (hl : Asc l) (hwf : ∀ r ∈ items, r.1 ≤ r.2) (v : Int)
+    (hd : Den l v) (hi : Den items v) : Den (inProp l items).1 v :=
+  inProp_keeps_aux l items hl hwf v hd hi
+
+example : (inProp [(0, 15)] [(3, 5), (1, 10)]).1 = [(1, 10)] := by decide
+example : (minProp [(0, 3), (6, 9)] 7).1 = [(6, 9)] := by decide
+example : Asc [(0, 3), (6, 9)] := by unfold Asc; decide
 
 end Pyvsc.C14
